@@ -80,7 +80,7 @@ func outLen(b, k int) int {
 	return 4 * b
 }
 
-//verif:ob prop=C14 name=ExpandMessageXMD_vs_RFC9380 mode=bv tags=purego split=h:0..2;nd:0..1+255..256;nm:0..2;k:0..7
+//verif:ob prop=C14,C18 name=ExpandMessageXMD_vs_RFC9380 mode=bv tags=purego split=h:0..2;nd:0..1+255..256;nm:0..2;k:0..7 sharedro=1
 func vh_C14_xmd() {
 	hid, nd, nm, k := verif.Case("h"), verif.Case("nd"), verif.Case("nm"), verif.Case("k")
 	hf, name, b, r := hashByID(hid)
